@@ -48,6 +48,10 @@ def units(tier, seed):
     for k, eng in enumerate(shapes_h1() + shapes_h2()[::2]):
         for mx in (False, True):
             descs.append(dict(engines=list(eng), gens=2, maximize=mx, obj="tiny_offset", Mh=4, seed=s, sprout={"kind": ("simple", "nbc")[k % 2], "L": 2}))
+    # an objective that returns the direction's BEST infinity on a small region (-inf when minimising): a legal, unbeatable value
+    for k, eng in enumerate([("SEA", "DE"), ("DE",), ("SHADE", "SEA"), ("LHS", "GA"), ("MWEA",), ("SEAX", "CMAf")]):
+        for mx in (False, True):
+            descs.append(dict(engines=list(eng), gens=2, maximize=mx, obj="goodinf", Mh=5, seed=s + k, pop=10, sprout={"kind": ("simple", "nbc")[k % 2], "L": 2}, box="B_sym"))
     # unattended runs (tree.run(), no accessor is read before the end), with roots that do not carry their best forward
     for k, eng in enumerate([("MWEA", "DE"), ("LHS", "SEA"), ("SOB", "CMAf"), ("MWEA", "SEA", "DE"), ("LHS", "DE", "CMAf"), ("SEA", "DE"), ("SOB",), ("MWEA",), ("SHADE", "SOB", "DE"), ("GA", "LHS", "SEA")]):
         for mx in (False, True):
